@@ -18,7 +18,14 @@ LeavesOf(sh) == LET RECURSIVE S(_) S(k) == IF k = 0 THEN 0 ELSE S(k - 1) + (IF s
 MkTree(sh, old) == [i \in 1..Len(sh) |->
                       IF sh[i] = 0 THEN Leaf(old, "L")
                       ELSE [blk |-> TRUE, seq |-> old, sig |-> "", items |-> [j \in 1..sh[i] |-> Leaf(old, "I")]]]
-Trees == {MkTree(sh, old) : sh \in {x \in Shapes : LeavesOf(x) <= MaxLeaves}, old \in OldNums}
+(* blocks inside blocks (not printed by the generator cfg: the harness builds nested lists itself) *)
+Blk(old, its) == [blk |-> TRUE, seq |-> old, sig |-> "", items |-> its]
+NestedTrees == IF Gen THEN {} ELSE UNION {{
+    <<Blk(old, <<Leaf(old, "I"), Blk(old, <<Leaf(old, "J"), Leaf(old, "J")>>)>>), Leaf(old, "L")>>,
+    <<Leaf(old, "L"), Blk(old, <<Blk(old, <<Leaf(old, "J")>>), Leaf(old, "I")>>)>>,
+    <<Blk(old, <<Blk(old, <<Blk(old, <<Leaf(old, "K")>>)>>)>>), Blk(old, <<Leaf(old, "I")>>)>>,
+    <<Blk(old, <<Blk(old, <<Leaf(old, "J")>>), Blk(old, <<Leaf(old, "J"), Leaf(old, "J")>>)>>)>> } : old \in OldNums}
+Trees == {MkTree(sh, old) : sh \in {x \in Shapes : LeavesOf(x) <= MaxLeaves}, old \in OldNums} \cup NestedTrees
 
 Init == tree \in Trees /\ s = Zero /\ d = Zero /\ ph = 0 /\ res = [ok |-> TRUE, tree |-> tree, ret |-> Zero]
 Call == /\ ph = 0 /\ ph' = 1 /\ UNCHANGED tree
